@@ -167,6 +167,7 @@ class DevConn:
         self.wedged = False
         self.closed = False
         self.rx_packets = 0
+        self._fifo_t = -1.0
 
     @property
     def loop(self):
@@ -206,9 +207,20 @@ class DevConn:
         groups = {}
         for delay, what in actions:
             groups.setdefault(float(delay), []).append(what)
+        now = self.now()
         for delay in sorted(groups):
             items = groups[delay]
-            if delay <= 0:
+            if self.dev.fifo:
+                # TCP never reorders: a later emission may not overtake an earlier, delayed one
+                when = now + max(delay, 0.0)
+                if when <= self._fifo_t:
+                    when = self._fifo_t + 1e-7
+                self._fifo_t = when
+                if when <= now:
+                    self.loop.call_soon(self._run_items, items)
+                else:
+                    self.loop.call_at(when, self._run_items, items)
+            elif delay <= 0:
                 self.loop.call_soon(self._run_items, items)
             else:
                 self.loop.call_later(delay, self._run_items, items)
@@ -245,6 +257,7 @@ class SimDevice:
         self.conns = []
         self.connect_script = []    # per-attempt: 'accept' | 'refuse' | 'hang'
         self.connect_default = "accept"
+        self.fifo = False           # True: per-connection FIFO delivery even with unequal delays (network latency model)
         # hooks (all optional)
         self.on_exchange: Optional[Callable] = None   # (conn, req_frame, resp_packets:list[bytes]) -> actions | None
         self.on_handshake: Optional[Callable] = None  # (conn, token_ok, default_reply:bytes, info) -> actions | None
@@ -253,6 +266,7 @@ class SimDevice:
         self.accept_token: Optional[Callable] = None  # (token) -> bool
         self.silent_on_bad_token = False
         self.frames_seen = []       # (t, conn_id, frame) every application frame unwrapped
+        self.version_log = []       # (t, version, state copy) whenever a command changed the appliance state
         self.handshakes = []        # (t, conn_id, token, accepted, counter)
         self.data_packets = []      # (t, conn_id, counter, key_gen, ok, frame)
         self.preauth_junk = []      # packets other than handshake before auth on that conn
@@ -289,7 +303,10 @@ class SimDevice:
 
     def _respond(self, conn, frame: bytes, meta: dict) -> None:
         self.frames_seen.append((conn.now(), conn.id, bytes(frame)))
+        v0 = self.ac.version
         resp_frames = self.ac.handle(frame)
+        if self.ac.version != v0:
+            self.version_log.append((conn.now(), self.ac.version, dict(self.ac.state)))
         packets = [self.wrap(conn, f) for f in resp_frames]
         actions = None
         if self.on_exchange is not None:
